@@ -98,3 +98,36 @@ def _(cx):
     cx.prove("torque21_law", cx.eq(w21[3:], spec.arr(cx, [Rt21[i] + txRf[i] for i in range(3)])), tol=1e-8)
     cx.prove("torque12_law", cx.eq(w12[3:], spec.arr(cx, [Rt12[i] - txRf[i] for i in range(3)])), tol=1e-8)
     cx.cover("end")
+
+
+@contract("hydroelastic.RigidBody.express_in", fn="distance3d.hydroelastic_contact._rigid_body.RigidBody.express_in", props=["C16"],
+          deps=["distance3d.utils.invert_transform", "distance3d.utils.transform_points"], opts=dict(minmax_ite=True))
+def _(cx):
+    """a body with every lazily computed cache filled (tetrahedra points, centre of mass, per-tetrahedron boxes, AABB tree) is re-expressed
+    in another frame: its world geometry is unchanged (new_pose . new_vertices = old_pose . old_vertices) and its complete state
+    equals that of a body constructed from the new pose and vertices - every attribute, so a cache that survives is a failure"""
+    from contracts.c03_mesh import _state_equal
+    K = cx.target("distance3d.hydroelastic_contact._rigid_body.RigidBody")
+    T0 = spec.pose(cx, "T0")
+    T1 = spec.pose(cx, "T1")
+    if sym(cx):
+        V = np.array([[cx.real("v%d_%d" % (i, j)) for j in range(3)] for i in range(4)], dtype=object)
+    else:
+        V = np.array([[cx.real("v%d_%d" % (i, j), lo=-1.0, hi=1.0) for j in range(3)] for i in range(4)], dtype=float)
+    V = np.ascontiguousarray(V)
+    tets = np.array([[0, 1, 2, 3]], dtype=int)
+    pot = np.array([0.0, 0.0, 0.0, 0.5]) if not sym(cx) else np.array([0.0, 0.0, 0.0, 0.5], dtype=object)
+    body = cx.call(K, np.ascontiguousarray(np.array(T0, dtype=T0.dtype)), V, tets, pot)
+    which = cx.choice(3, "caches_filled")
+    if which >= 1:
+        cx.call(lambda: body.tetrahedra_points)
+        cx.call(lambda: body.aabbs)
+    if which == 2:
+        cx.call(lambda: body.aabb_tree)
+    old_world = [spec.to_world_point(cx, T0, V[i]) for i in range(4)]
+    cx.call(body.express_in, np.ascontiguousarray(np.array(T1, dtype=T1.dtype)))
+    for i in range(4):
+        cx.prove("world_vertex_unchanged[%d]" % i, cx.eq(spec.to_world_point(cx, body.body2origin_, body.vertices_[i]), old_world[i]), tol=1e-9)
+    fresh = cx.call(K, np.ascontiguousarray(np.array(T1, dtype=T1.dtype)), body.vertices_, tets, pot)
+    _state_equal(cx, body, fresh, "RigidBody", set())
+    cx.cover("end")
